@@ -388,3 +388,44 @@ package chord
 
 // hash functions handed to the stores produce ring identifiers (chord.Hash does: proved under C11)
 //@ axiom ids48hash: forall f int, s string :: dyncall(f, s, "uint64") < 1<<48
+
+// ---- KV operations through a VNode handle (assumed interface contracts, used by the tunnel server
+// properties C25/C26/C29/C51): kvWrites counts the mutating requests issued through the handle, so
+// "a refused call changes nothing in the DHT" is kvWrites == old(kvWrites); reads leave it unchanged.
+//@ absfield interface kvWrites int
+//@ interface (v VNode) Put(ctx context.Context, key []byte, value []byte) (err error)
+//@   modifies v.kvWrites
+//@   ensures v.kvWrites == old(v.kvWrites) + 1
+//@ interface (v VNode) Delete(ctx context.Context, key []byte) (err error)
+//@   modifies v.kvWrites
+//@   ensures v.kvWrites == old(v.kvWrites) + 1
+//@ interface (v VNode) PrefixAppend(ctx context.Context, prefix []byte, child []byte) (err error)
+//@   modifies v.kvWrites
+//@   ensures v.kvWrites == old(v.kvWrites) + 1
+//@ interface (v VNode) PrefixRemove(ctx context.Context, prefix []byte, child []byte) (err error)
+//@   modifies v.kvWrites
+//@   ensures v.kvWrites == old(v.kvWrites) + 1
+//@ interface (v VNode) Acquire(ctx context.Context, lease []byte, ttl time.Duration) (token uint64, err error)
+//@   modifies v.kvWrites
+//@   ensures v.kvWrites == old(v.kvWrites) + 1
+//@ interface (v VNode) Renew(ctx context.Context, lease []byte, ttl time.Duration, prevToken uint64) (newToken uint64, err error)
+//@   modifies v.kvWrites
+//@   ensures v.kvWrites == old(v.kvWrites) + 1
+//@ interface (v VNode) Release(ctx context.Context, lease []byte, token uint64) (err error)
+//@   modifies v.kvWrites
+//@   ensures v.kvWrites == old(v.kvWrites) + 1
+//@ interface (v VNode) Get(ctx context.Context, key []byte) (value []byte, err error)
+//@   ensures v.kvWrites == old(v.kvWrites)
+//@ interface (v VNode) PrefixContains(ctx context.Context, prefix []byte, child []byte) (r bool, err error)
+//@   ensures v.kvWrites == old(v.kvWrites)
+//@ interface (v VNode) PrefixList(ctx context.Context, prefix []byte) (children [][]byte, err error)
+//@   ensures v.kvWrites == old(v.kvWrites)
+// the same operations through the narrower KV interface (spec/tun helpers take a chord.KV)
+//@ interface (v KV) Put(ctx context.Context, key []byte, value []byte) (err error)
+//@   modifies v.kvWrites
+//@   ensures v.kvWrites == old(v.kvWrites) + 1
+//@ interface (v KV) Delete(ctx context.Context, key []byte) (err error)
+//@   modifies v.kvWrites
+//@   ensures v.kvWrites == old(v.kvWrites) + 1
+//@ interface (v KV) Get(ctx context.Context, key []byte) (value []byte, err error)
+//@   ensures v.kvWrites == old(v.kvWrites)
